@@ -19,7 +19,13 @@
      object (rpyc.lib.get_id_pack) does not change while it is lent ([Morph]; see c10_unstable_key_refuted);
    * [calm_op] (theorems 3c, 3'): moreover no remote call raises; otherwise the connection that served the call
      keeps the traceback, and with it the lent object / the proxies (see 3r, 3'r);
-   * theorems 4, 4': the generated close-path facts. *)
+   * theorems 4, 4': the generated close-path facts; 4' speaks about operations issued on the connection after the
+     close has returned -- a callee that closes the connection while it is being served and then returns by
+     reference is the subject of 4'' / 4''r;
+   * every call's arguments and every result can be boxed and encoded, and the peer can unbox what it receives
+     (no sibling in the same message fails to box, to encode, or to unbox at the peer).  What the code does
+     otherwise is stated by the operations [SendFail], [ReplyFail], [SendBadSibling] (not [valid_op]s) and the
+     theorems 5, 5r, 6r: on the pinned tree such a failure leaks the siblings passed by reference. *)
 From V Require Import lib.Base model.Refcount proofs.RefcountP proofs.RefcountTie gen.Gen_colls.
 Open Scope Z_scope.
 Notation Pg := Gen_colls.params.
@@ -73,8 +79,8 @@ Theorem c10_released_at_quiescence_calm : forall ops k, Forall calm_op ops -> cl
   slot (run Pg ops) k = None /\ alive (run Pg ops) k = appref (run Pg ops) k.
 Proof.
   rewrite tie_params. intros ops k Hc Ho Hr Hd Hp.
-  destruct (released_at_quiescence _ _ _ ops k (calm_valid_all ops Hc) Ho Hr Hd Hp) as [A B]. split; [exact A|].
-  rewrite B, (q_tbo _ (run_quiet _ _ _ ops Hc)). apply orb_false_r.
+  destruct (released_at_quiescence _ _ _ _ _ ops k (calm_valid_all ops Hc) Ho Hr Hd Hp) as [A B]. split; [exact A|].
+  rewrite B, (q_tbo _ (run_quiet _ _ _ _ _ ops Hc)). apply orb_false_r.
 Qed.
 Print Assumptions c10_released_at_quiescence_calm.
 
@@ -122,17 +128,55 @@ Print Assumptions c10_unstable_key_refuted.
       with a raising before_closed hook iff close() calls _cleanup in a finally; with a raising on_disconnect iff
       the clear in _cleanup is guarded against it *)
 Theorem c10_close_releases : forall ops b f k, closed (run Pg ops) = false -> close_reaches_clear Pg b f = true ->
-  closed (run Pg (ops ++ [Close b f])) = true /\ slot (run Pg (ops ++ [Close b f])) k = None.
+  closed (run Pg (ops ++ [Close b f])) = true /\ slot (run Pg (ops ++ [Close b f])) k = None /\
+  alive (run Pg (ops ++ [Close b f])) k = appref (run Pg (ops ++ [Close b f])) k.
 Proof. rewrite tie_params. apply close_releases_now. Qed.
 Print Assumptions c10_close_releases.
 
-(* 4'. and nothing comes back afterwards, whatever is done with the closed connection -- when lending through a
-       closed connection is refused before anything is boxed *)
+(* 4'. and nothing comes back afterwards, whatever operation is issued on the closed connection after the close has
+       returned -- when lending through a closed connection is refused before anything is boxed.  (Not covered
+       here: a result boxed by a request that was being served while the connection closed, see 4''.) *)
 Theorem c10_close_stays_released : Gen_colls.send_checks_closed = true ->
   forall ops b f more k, closed (run Pg ops) = false -> close_reaches_clear Pg b f = true ->
   closed (run Pg (ops ++ Close b f :: more)) = true /\ slot (run Pg (ops ++ Close b f :: more)) k = None.
 Proof. rewrite tie_params. intros H ops b f more k. now apply close_stays_released. Qed.
 Print Assumptions c10_close_stays_released.
+
+(* 4''. a callee that closes the owner's connection while it is being served and then returns an object by reference:
+        nothing is registered when the reply path refuses before boxing on a closed channel ... *)
+Theorem c10_close_in_callee_releases : Gen_colls.reply_checks_closed = true -> forall s c r k, closed s = false ->
+  closed (step Pg (CloseInCallee c r) s) = true -> slot (step Pg (CloseInCallee c r) s) k = None.
+Proof. rewrite tie_params. intros ->. apply close_in_callee_releases. Qed.
+Print Assumptions c10_close_in_callee_releases.
+(* 4''r. ... and otherwise the returned object is registered in the table of the closed connection for ever *)
+Theorem c10_close_in_callee_refuted : Gen_colls.reply_checks_closed = false -> exists ops k,
+  Forall valid_op ops /\ closed (run Pg ops) = false /\
+  closed (run Pg (ops ++ [CloseInCallee k k])) = true /\ slot (run Pg (ops ++ [CloseInCallee k k])) k = Some 0.
+Proof. rewrite tie_params. intros ->. apply close_in_callee_refuted. Qed.
+Print Assumptions c10_close_in_callee_refuted.
+
+(* 5. a call whose arguments (or whose result) cannot all be boxed and encoded: when what _box registered is given back
+      on failure, a failed call leaves the state as it was, a failed reply leaves the table as it was *)
+Theorem c10_failed_send_harmless : Gen_colls.failed_send_releases = true -> forall s ks c r k, closed s = false ->
+  step Pg (SendFail ks) s = s /\ slot (step Pg (ReplyFail c r) s) k = slot (sync Pg (sync Pg s)) k.
+Proof. rewrite tie_params. intros -> s ks c r k H. split; [now apply failed_send_harmless|now apply failed_reply_harmless]. Qed.
+Print Assumptions c10_failed_send_harmless.
+(* 5r. otherwise the siblings passed by reference leak on an open, healthy connection: after everything has been
+       delivered and every proxy dropped the entry is still there *)
+Theorem c10_failed_send_refuted : Gen_colls.failed_send_releases = false ->
+  (exists ops k, let s := run Pg (ops ++ [Sync; Sync] ++ map DropAll [k] ++ [Sync]) in
+     closed s = false /\ qab s = [] /\ qba s = [] /\ prox s k = None /\ holds s k = O /\ errs s = O /\ slot s k = Some 0) /\
+  (exists ops k, let s := run Pg (ops ++ [Sync; Sync] ++ map DropAll [k] ++ [Sync; Sync]) in
+     closed s = false /\ qab s = [] /\ qba s = [] /\ prox s k = None /\ holds s k = O /\ errs s = O /\ slot s k = Some 0).
+Proof. rewrite tie_params. intros ->. split; [apply failed_send_refuted|apply failed_reply_refuted]. Qed.
+Print Assumptions c10_failed_send_refuted.
+(* 6r. a reference the peer consumed without producing a proxy (the unboxing of a sibling failed: its INSPECT raised at
+       the owner) is never given back: same end state *)
+Theorem c10_lost_reference_refuted : exists ops k,
+  let s := run Pg (ops ++ [Sync; Sync] ++ map DropAll [k] ++ [Sync]) in
+  closed s = false /\ qab s = [] /\ qba s = [] /\ prox s k = None /\ holds s k = O /\ errs s = O /\ slot s k = Some 0.
+Proof. rewrite tie_params. apply lost_reference_refuted. Qed.
+Print Assumptions c10_lost_reference_refuted.
 
 (* 4r. what happens when the close-path facts are false *)
 Theorem c10_close_stays_released_refuted : Gen_colls.send_checks_closed = false -> exists ops more k,
@@ -219,7 +263,8 @@ Proof. vm_compute. repeat split; reflexivity. Qed.
 Example c10_le_would_break :
   let P := {| p_add_init := 0; p_add_inc := 1; p_dec_cmp := CLe; p_dec_default := 1; p_proxy_init := 1;
               p_unbox_inc := 1; p_del_src := DRefcount; p_cleanup_clears := true;
-              p_send_checks_closed := true; p_cleanup_guarded := true; p_close_finally := true |} in
+              p_send_checks_closed := true; p_cleanup_guarded := true; p_close_finally := true;
+              p_failed_send_releases := true; p_reply_checks_closed := true |} in
   let ops := [Send [0]; DeliverAB; DropAll 0; Send [0]; DeliverBA; DeliverBA; DeliverAB]%nat in
   slot (run P ops) 0%nat = None /\ prox (run P ops) 0%nat = Some 1.
 Proof. vm_compute. split; reflexivity. Qed.
